@@ -397,7 +397,7 @@ Qed.
 
 (* 5 *)
 Theorem v4_mapped_same : forall m x,
-  mark_of m (Some (A4 x)) = mark_of m (Some (A6 (v4_prefix + x)%N)).
+  mark_of m (Some (NlA4 x)) = mark_of m (Some (NlA6 (v4_prefix + x)%N)).
 Proof. intros m x. destruct m; reflexivity. Qed.
 
 (* 6 *)
